@@ -706,4 +706,957 @@ theorem restore_prepare (cfg : Cfg) (g : G) (t : Nat) (order chain : List Nat) (
         · exact ((m1 a b).mp hk).1
         · exact absurd (hEC a ha) (hW a b hk).2.1
 
+
+/-! ## the run along the chain -/
+
+/-- nothing hangs on `failed` / `true` / `false` of the node -/
+def Silent (g : G) (a : Nat) : Prop :=
+  g.conns (ch a 3) = [] ∧ g.conns (ch a 4) = [] ∧ g.conns (ch a 5) = []
+
+/-- every member's `ran` is connected to the `run` of the next member and to nothing else, the
+last member's `ran` to nothing -/
+def Linked (g : G) : List Nat → Prop
+  | [] => True
+  | [z] => Silent g z ∧ g.conns (ch z 2) = []
+  | a :: b :: r => Silent g a ∧ g.conns (ch a 2) = [ch b 0] ∧ Linked g (b :: r)
+
+theorem runFuel_empty (e : Env) (m : Mode) (f : Nat) (x : X) (h : x.stack = []) :
+    runFuel e m f x = x := by
+  cases f <;> simp [runFuel, h]
+
+theorem emitItems_failed (e : Env) (a : Nat) (h : Silent e.g a) : emitItems e a false = [] := by
+  simp [emitItems, fireAll, h.1]
+
+theorem emitItems_ok (e : Env) (a : Nat) (h : Silent e.g a) :
+    emitItems e a true = fireAll e (ch a 2) := by
+  simp only [emitItems, if_true]
+  cases e.truth a with
+  | none => simp
+  | some b => cases b <;> simp [fireAll, h.2.1, h.2.2]
+
+/-- success of a run as the mode reports it -/
+def cleanRun (m : Mode) (x x' : X) : Prop :=
+  match m with
+  | .dfs => x'.raised = false
+  | .bfs => x'.errs = x.errs
+
+theorem run_chain (e : Env) (m : Mode) (L : List Nat) :
+    ∀ (a : Nat) (x : X) (fuel : Nat), Linked e.g (a :: L) → x.stack = [] → L.length + 2 ≤ fuel →
+      (runFuel e m fuel (startNode e m x a)).stack = [] ∧
+      x.errs ≤ (runFuel e m fuel (startNode e m x a)).errs ∧
+      ∃ pre, pre <+: (a :: L) ∧ (runFuel e m fuel (startNode e m x a)).log = x.log ++ pre ∧
+        (cleanRun m x (runFuel e m fuel (startNode e m x a)) → pre = a :: L) := by
+  induction L with
+  | nil =>
+    intro a x fuel hl hs hf
+    obtain ⟨f, rfl⟩ : ∃ f, fuel = f + 2 := ⟨fuel - 2, by omega⟩
+    simp only [Linked] at hl
+    obtain ⟨hsil, hran⟩ := hl
+    unfold startNode
+    by_cases hfa : x.failed a = true
+    · cases m <;> simp [hfa, runFuel, hs, cleanRun]
+    · by_cases hfl : e.fails a = true
+      · cases m
+        · simp [hfa, hfl, emitItems_failed e a hsil, runFuel, step, hs, cleanRun]
+        · simp [hfa, hfl, emitItems_failed e a hsil, runFuel, hs, cleanRun]
+      · cases m <;>
+          simp [hfa, hfl, emitItems_ok e a hsil, fireAll, hran, runFuel, hs, cleanRun] <;>
+          exact ⟨[a], List.prefix_refl _, rfl, fun _ => rfl⟩
+  | cons b r ih =>
+    intro a x fuel hl hs hf
+    obtain ⟨f, rfl⟩ : ∃ f, fuel = f + 1 := ⟨fuel - 1, by simp at hf; omega⟩
+    simp only [Linked] at hl
+    obtain ⟨hsil, hran, hrest⟩ := hl
+    have hf' : r.length + 2 ≤ f := by simp at hf; omega
+    unfold startNode
+    by_cases hfa : x.failed a = true
+    · cases m <;> simp [hfa, runFuel, hs, cleanRun]
+    · by_cases hfl : e.fails a = true
+      · cases m
+        · simp [hfa, hfl, emitItems_failed e a hsil, runFuel, step, hs, cleanRun]
+          rw [runFuel_empty _ _ _ _ rfl]
+          exact ⟨rfl, Nat.le_refl _, [a], by simp, rfl, by simp⟩
+        · simp [hfa, hfl, emitItems_failed e a hsil, runFuel, hs, cleanRun]
+      · -- `a` runs and hands over to `b`
+        have hmod : ch b 0 % 6 = 0 := ch_mod b 0 (by omega)
+        have hdiv : ch b 0 / 6 = b := ch_div b 0 (by omega)
+        cases m
+        · simp only [hfa, hfl, emitItems_ok e a hsil, fireAll, hran, hs, List.map_cons, List.map_nil,
+            Bool.false_eq_true, if_false, List.append_nil]
+          simp only [runFuel, List.isEmpty_cons, Bool.false_eq_true, if_false, step, hmod, if_true, hdiv]
+          obtain ⟨h1, h2, pre, hp, hlog, hcl⟩ :=
+            ih b { x with log := x.log ++ [a], stack := [] } f hrest rfl hf'
+          refine ⟨h1, h2, a :: pre, ?_, ?_, ?_⟩
+          · exact List.prefix_cons_inj a |>.mpr hp
+          · rw [hlog]; simp
+          · intro hc; rw [hcl hc]
+        · simp only [hfa, hfl, emitItems_ok e a hsil, fireAll, hran, hs, List.map_cons, List.map_nil,
+            Bool.false_eq_true, if_false, List.nil_append]
+          simp only [runFuel, List.isEmpty_cons, Bool.false_eq_true, if_false, step, hmod, if_true, hdiv]
+          obtain ⟨h1, h2, pre, hp, hlog, hcl⟩ :=
+            ih b { x with log := x.log ++ [a], stack := [] } f hrest rfl hf'
+          refine ⟨h1, h2, a :: pre, ?_, ?_, ?_⟩
+          · exact List.prefix_cons_inj a |>.mpr hp
+          · rw [hlog]; simp
+          · intro hc; rw [hcl hc]
+
+
+/-! ## the prepared graph is linked along the chain -/
+
+theorem Adj.mid (l1 : List Nat) (a b : Nat) (l2 : List Nat) : Adj (l1 ++ a :: b :: l2) a b := by
+  induction l1 with
+  | nil => simp [Adj]
+  | cons x xs ih =>
+    cases xs with
+    | nil => simp [Adj]
+    | cons y ys =>
+      have : Adj (x :: y :: (ys ++ a :: b :: l2)) a b := Or.inr (by simpa using ih)
+      simpa using this
+
+theorem Adj.unique {L : List Nat} (hnd : L.Nodup) {a q q' : Nat} (h1 : Adj L a q) (h2 : Adj L a q') :
+    q = q' := by
+  induction L with
+  | nil => simp [Adj] at h1
+  | cons x r ih =>
+    cases r with
+    | nil => simp [Adj] at h1
+    | cons y r' =>
+      simp only [Adj] at h1 h2
+      have hx : x ∉ y :: r' := (List.nodup_cons.mp hnd).1
+      have hnd' := (List.nodup_cons.mp hnd).2
+      rcases h1 with ⟨rfl, rfl⟩ | h1 <;> rcases h2 with ⟨e, rfl⟩ | h2
+      · rfl
+      · exact absurd h2.mem.1 hx
+      · subst e; exact absurd h1.mem.1 hx
+      · exact ih hnd' h1 h2
+
+theorem eq_singleton_of_mem_iff {l : List Nat} (hnd : l.Nodup) {y : Nat} (h : ∀ z, z ∈ l ↔ z = y) :
+    l = [y] := by
+  cases l with
+  | nil => have := (h y).mpr rfl; cases this
+  | cons a r =>
+    have ha : a = y := (h a).mp List.mem_cons_self
+    cases r with
+    | nil => rw [ha]
+    | cons b r' =>
+      have hb : b = y := (h b).mp (by simp)
+      subst ha; subst hb
+      simp at hnd
+
+/-- the connections of the prepared graph when something has to run -/
+theorem mem_prepared (cfg : Cfg) (g : G) (t : Nat) (order chain : List Nat) (h : GWF g)
+    (hne : chain.headD t ≠ t) (x y : Nat) :
+    y ∈ (prepare cfg g t order chain).1.conns x ↔
+      (((y ∈ g.conns x ∧ x ∉ cutChans order ∧ y ∉ cutChans order) ∨
+          ∃ a b, Adj chain a b ∧ ((x = ch b 0 ∧ y = ch a 2) ∨ (x = ch a 2 ∧ y = ch b 0))) ∧
+        x ∉ extraChans cfg order ∧ y ∉ extraChans cfg order) ∧ x ∉ runChans t ∧ y ∉ runChans t := by
+  have hg1 := h.disconnectChans (cutChans order)
+  have hg2 := hg1.wire chain
+  rw [prepare_eq, if_neg hne]
+  rw [mem_disconnectChans _ _ (hg2.disconnectChans _).inv, mem_disconnectChans _ _ hg2.inv,
+    mem_wire _ _ hg1.inv hg1.kinds hg1.valid, mem_disconnectChans _ _ h.inv]
+
+theorem linked_prepared (cfg : Cfg) (g : G) (t : Nat) (order pre : List Nat) (h : GWF g)
+    (hnd : (pre ++ [t]).Nodup) (hsub : ∀ x ∈ pre, x ∈ order) (hne : pre ≠ [])
+    (hemit : cfg.cutAllOutputs = true ∨
+      ∀ i ∈ pre, g.conns (ch i 3) = [] ∧ g.conns (ch i 4) = [] ∧ g.conns (ch i 5) = []) :
+    Linked (prepare cfg g t order (pre ++ [t])).1 pre := by
+  have hhead : (pre ++ [t]).headD t ≠ t := by
+    cases pre with
+    | nil => exact absurd rfl hne
+    | cons a r =>
+      simp only [List.cons_append, List.headD_cons]
+      intro e; subst e
+      simp at hnd
+  have hgP := prepare_gwf cfg g t order (pre ++ [t]) h
+  have mP := mem_prepared cfg g t order (pre ++ [t]) h hhead
+  have htpre : t ∉ pre := by
+    intro ht
+    rw [List.nodup_append] at hnd
+    exact hnd.2.2 t ht t (by simp) rfl
+  -- nothing hangs on the other outputs of a member
+  have hsil : ∀ a ∈ pre, Silent (prepare cfg g t order (pre ++ [t])).1 a := by
+    intro a ha
+    have hao := hsub a ha
+    have key : ∀ k, k = 3 ∨ k = 4 ∨ k = 5 → (prepare cfg g t order (pre ++ [t])).1.conns (ch a k) = [] := by
+      intro k hk
+      apply List.eq_nil_iff_forall_not_mem.mpr
+      intro y hy
+      obtain ⟨⟨hcase, hxe, _⟩, _, _⟩ := (mP (ch a k) y).mp hy
+      rcases hcase with ⟨h0, _, _⟩ | ⟨p, q, _, e⟩
+      · rcases hemit with hc | hc
+        · apply hxe
+          unfold extraChans; rw [if_pos hc]
+          exact (mem_otherOutChans order _).mpr ⟨a, hao, by rcases hk with rfl | rfl | rfl <;> simp⟩
+        · have := hc a ha
+          rcases hk with rfl | rfl | rfl
+          · rw [this.1] at h0; cases h0
+          · rw [this.2.1] at h0; cases h0
+          · rw [this.2.2] at h0; cases h0
+      · unfold ch at e; omega
+    exact ⟨key 3 (by simp), key 4 (by simp), key 5 (by simp)⟩
+  -- `ran` of a member leads to the `run` of its successor, unless that is the target
+  have hran : ∀ a ∈ pre, ∀ y, y ∈ (prepare cfg g t order (pre ++ [t])).1.conns (ch a 2) ↔
+      ∃ q, Adj (pre ++ [t]) a q ∧ q ≠ t ∧ y = ch q 0 := by
+    intro a ha y
+    have hao := hsub a ha
+    rw [mP]
+    constructor
+    · rintro ⟨⟨hcase, _, _⟩, _, hyt⟩
+      rcases hcase with ⟨_, hx, _⟩ | ⟨p, q, hpq, e⟩
+      · exact absurd ((mem_cutChans order _).mpr ⟨a, hao, Or.inr (Or.inr rfl)⟩) hx
+      · rcases e with ⟨e1, _⟩ | ⟨e1, e2⟩
+        · unfold ch at e1; omega
+        · have : p = a := by unfold ch at e1; omega
+          subst this
+          refine ⟨q, hpq, ?_, e2⟩
+          rintro rfl
+          apply hyt; rw [e2]; simp [runChans]
+    · rintro ⟨q, hq, hqt, rfl⟩
+      have hno : ∀ c, c ∈ extraChans cfg order → c % 6 ≥ 3 := by
+        intro c hc
+        unfold extraChans at hc
+        split at hc
+        · obtain ⟨j, _, e⟩ := (mem_otherOutChans order _).mp hc
+          unfold ch at e; omega
+        · cases hc
+      refine ⟨⟨Or.inr ⟨a, q, hq, Or.inr ⟨rfl, rfl⟩⟩, ?_, ?_⟩, ?_, ?_⟩
+      · intro hc; have := hno _ hc; unfold ch at this; omega
+      · intro hc; have := hno _ hc; unfold ch at this; omega
+      · simp only [runChans, List.mem_cons, List.not_mem_nil, or_false]; unfold ch; omega
+      · simp only [runChans, List.mem_cons, List.not_mem_nil, or_false]; unfold ch; omega
+  -- along the chain
+  have main : ∀ (s l1 : List Nat), pre = l1 ++ s → Linked (prepare cfg g t order (pre ++ [t])).1 s := by
+    intro s
+    induction s with
+    | nil => intro _ _; trivial
+    | cons a r ih =>
+      intro l1 hpre
+      have ha : a ∈ pre := by rw [hpre]; simp
+      cases r with
+      | nil =>
+        refine ⟨hsil a ha, ?_⟩
+        apply List.eq_nil_iff_forall_not_mem.mpr
+        intro y hy
+        obtain ⟨q, hq, hqt, _⟩ := (hran a ha y).mp hy
+        have hat : Adj (pre ++ [t]) a t := by
+          rw [hpre]; simpa using Adj.mid l1 a t []
+        exact hqt (Adj.unique hnd hq hat)
+      | cons b r' =>
+        have hb : b ∈ pre := by rw [hpre]; simp
+        have hab : Adj (pre ++ [t]) a b := by
+          rw [hpre]; simpa using Adj.mid l1 a b (r' ++ [t])
+        refine ⟨hsil a ha, ?_, ?_⟩
+        · apply eq_singleton_of_mem_iff (hgP.inv.nodup _)
+          intro z
+          rw [hran a ha z]
+          constructor
+          · rintro ⟨q, hq, _, rfl⟩
+            rw [Adj.unique hnd hq hab]
+          · rintro rfl
+            exact ⟨b, hab, fun e => htpre (e ▸ hb), rfl⟩
+        · exact ih (l1 ++ [a]) (by rw [hpre]; simp)
+  exact main pre [] rfl
+
+
+/-! ## running changes nothing but the log, the received signals and the status flags -/
+
+theorem drive_frame (cfg : Cfg) (w : World) (t s fuel : Nat) :
+    ∃ l r f, (drive cfg w t s fuel).1 = { w with log := l, recv := r, failed := f } := by
+  unfold drive
+  split
+  · exact ⟨_, _, _, rfl⟩
+  · split
+    · exact ⟨w.log, w.recv, w.failed, rfl⟩
+    · dsimp only
+      split
+      · exact ⟨_, _, _, rfl⟩
+      · split
+        · exact ⟨_, _, _, rfl⟩
+        · exact ⟨_, _, _, rfl⟩
+
+theorem emitItems_silent (e : Env) (p : Nat) (ok : Bool) (h2 : e.g.conns (ch p 2) = [])
+    (hs : Silent e.g p) : emitItems e p ok = [] := by
+  cases ok
+  · exact emitItems_failed e p hs
+  · rw [emitItems_ok e p hs]; simp [fireAll, h2]
+
+/-- the driving parent is a workflow (never emits) or nothing hangs on its outputs -/
+def DriverSilent (w : World) (t : Nat) : Prop :=
+  ∀ p, w.parent t = some p → w.isWf p = true ∨ (w.g.conns (ch p 2) = [] ∧ Silent w.g p)
+
+theorem ite_ne_stuck (c : Prop) [Decidable c] : (if c then Outcome.failed else Outcome.ok) ≠ .stuck := by
+  split <;> simp
+
+theorem ite_ok (c : Prop) [Decidable c] (h : (if c then Outcome.failed else Outcome.ok) = .ok) : ¬ c := by
+  split at h
+  · cases h
+  · assumption
+
+/-- the upstream run executes a prefix of the linked chain, all of it when nothing is reported -/
+theorem drive_log (cfg : Cfg) (w : World) (t a fuel : Nat) (L : List Nat)
+    (hl : Linked w.g (a :: L)) (hf : L.length + 2 ≤ fuel)
+    (hdrv : cfg.parentEmits = false ∨ DriverSilent w t) :
+    (drive cfg w t a fuel).2 ≠ .stuck ∧
+      ∃ pre, pre <+: (a :: L) ∧ (drive cfg w t a fuel).1.log = w.log ++ pre ∧
+        ((drive cfg w t a fuel).2 = .ok → pre = a :: L) := by
+  unfold drive
+  split
+  · -- parentless: the starter runs, signals are direct calls
+    obtain ⟨h1, _, pre, hp, hlog, hcl⟩ := run_chain w.env .dfs L a w.x fuel hl rfl hf
+    simp only [h1, List.isEmpty_nil, Bool.not_true, Bool.false_eq_true, if_false]
+    refine ⟨ite_ne_stuck _, pre, hp, hlog, ?_⟩
+    intro hok
+    apply hcl
+    simp only [cleanRun]
+    exact Bool.eq_false_iff.mpr (ite_ok _ hok)
+  · rename_i p hp
+    split
+    · exact ⟨by simp, [], List.nil_prefix, by simp, by simp⟩
+    · obtain ⟨h1, _, pre, hpre, hlog, hcl⟩ := run_chain w.env .bfs L a w.x fuel hl rfl hf
+      have herr0 : w.x.errs = 0 := rfl
+      simp only [h1, List.isEmpty_nil, Bool.not_true, Bool.false_eq_true, if_false]
+      have hclean : ¬ decide ((runFuel w.env .bfs fuel (startNode w.env .bfs w.x a)).errs > 0) = true →
+          pre = a :: L := by
+        intro hb; apply hcl; simp only [cleanRun]
+        have : ¬ (runFuel w.env .bfs fuel (startNode w.env .bfs w.x a)).errs > 0 := by simpa using hb
+        omega
+      split
+      · refine ⟨ite_ne_stuck _, pre, hpre, hlog, ?_⟩
+        intro hok
+        exact hclean (ite_ok _ hok)
+      · rename_i hemit
+        have hpe : cfg.parentEmits = true := by
+          cases hc : cfg.parentEmits <;> simp_all
+        have hnwf : w.isWf p = false := by
+          cases hc : w.isWf p <;> simp_all
+        have hsil : w.g.conns (ch p 2) = [] ∧ Silent w.g p := by
+          rcases hdrv with hd | hd
+          · rw [hd] at hpe; cases hpe
+          · rcases hd p hp with hd | hd
+            · rw [hd] at hnwf; cases hnwf
+            · exact hd
+        rw [emitItems_silent _ p _ hsil.1 hsil.2, runFuel_empty _ Mode.dfs _ _ rfl]
+        simp only [List.isEmpty_nil, Bool.not_true, Bool.false_eq_true, if_false]
+        refine ⟨ite_ne_stuck _, pre, hpre, hlog, ?_⟩
+        intro hok
+        apply hclean
+        intro hb
+        exact ite_ok _ hok (by simp [hb])
+
+
+/-! ## one level of `run_data_tree` -/
+
+/-- everything a pull has to leave alone (connection lists up to their order) -/
+structure Same (w w' : World) : Prop where
+  n : w'.n = w.n
+  deps : w'.deps = w.deps
+  parent : w'.parent = w.parent
+  isWf : w'.isWf = w.isWf
+  hasExec : w'.hasExec = w.hasExec
+  fails : w'.fails = w.fails
+  truth : w'.truth = w.truth
+  label : w'.label = w.label
+  starting : w'.starting = w.starting
+  conns : ∀ x y, y ∈ w'.g.conns x ↔ y ∈ w.g.conns x
+  gwf : GWF w'.g
+
+theorem Same.refl (w : World) (h : GWF w.g) : Same w w :=
+  ⟨rfl, rfl, rfl, rfl, rfl, rfl, rfl, rfl, rfl, fun _ _ => Iff.rfl, h⟩
+
+theorem Same.trans {a b c : World} (h1 : Same a b) (h2 : Same b c) : Same a c :=
+  ⟨h2.n.trans h1.n, h2.deps.trans h1.deps, h2.parent.trans h1.parent, h2.isWf.trans h1.isWf,
+   h2.hasExec.trans h1.hasExec, h2.fails.trans h1.fails, h2.truth.trans h1.truth,
+   h2.label.trans h1.label, h2.starting.trans h1.starting,
+   fun x y => (h2.conns x y).trans (h1.conns x y), h2.gwf⟩
+
+theorem updF_updF_self {α} (f : Nat → α) (p : Nat) (v : α) : updF (updF f p v) p (f p) = f := by
+  funext x; by_cases h : x = p <;> simp [updF, h]
+
+theorem runUpstream_frame (cfg : Cfg) (w : World) (t s fuel : Nat) :
+    ∃ l r f au, (runUpstream cfg w t s fuel).1 =
+        { w with log := l, recv := r, failed := f, automate := au,
+                 starting := match w.parent t with
+                   | some p => updF w.starting p [s]
+                   | none => w.starting } ∧
+      ((cfg.automateInFinally = true ∨ (runUpstream cfg w t s fuel).2 = .ok) → au = w.automate) := by
+  unfold runUpstream
+  split
+  · rename_i hp
+    obtain ⟨l, r, f, e⟩ := drive_frame cfg w t s fuel
+    exact ⟨l, r, f, w.automate, by rw [e]; simp [hp], fun _ => rfl⟩
+  · rename_i p hp
+    dsimp only
+    cases hwf : w.isWf p
+    · -- a macro drives: `automate_execution` is not touched
+      simp only [Bool.false_and, Bool.false_eq_true, if_false]
+      obtain ⟨l, r, f, e⟩ := drive_frame cfg { w with starting := updF w.starting p [s] } t s fuel
+      exact ⟨l, r, f, w.automate, by rw [e]; simp [hp], fun _ => rfl⟩
+    · simp only [Bool.true_and, if_true]
+      obtain ⟨l, r, f, e⟩ := drive_frame cfg
+        { w with starting := updF w.starting p [s], automate := updF w.automate p false } t s fuel
+      split
+      · refine ⟨l, r, f, w.automate, ?_, fun _ => rfl⟩
+        rw [e]
+        simp [updF_updF_self, hp]
+      · rename_i hc
+        refine ⟨l, r, f, updF w.automate p false, by rw [e]; simp [hp], ?_⟩
+        intro hor
+        exfalso; apply hc
+        rcases hor with h1 | h1
+        · simp [h1]
+        · simp [h1]
+
+theorem relabel_unlabel (lab : Nat → Label) (order : List Nat) :
+    unlabel lab (relabel lab order) order = lab := by
+  funext i; unfold unlabel relabel; split <;> simp_all
+
+theorem mem_closure_self (w : World) (t : Nat) (cl : List Nat) (h : closureOf w t = some cl) : t ∈ cl :=
+  dfs_complete w.deps t t (.refl t) _ _ h
+
+theorem validOrder_mem (cl order : List Nat) (h : validOrder cl order = true) :
+    ∀ x, x ∈ order ↔ x ∈ cl := by
+  simp only [validOrder, Bool.and_eq_true] at h
+  exact (sameMembers_iff _ _).mp h.2
+
+theorem validChain_spec (w : World) (cl chain : List Nat) (h : validChain w cl chain = true) :
+    chain.Nodup ∧ (∀ x, x ∈ chain ↔ x ∈ cl) ∧ topoOk w.deps [] chain = true := by
+  simp only [validChain, Bool.and_eq_true, decide_eq_true_eq] at h
+  exact ⟨h.1.1, (sameMembers_iff _ _).mp h.1.2, h.2⟩
+
+/-- whatever the outcome, one level of `run_data_tree` leaves the graph as it was -/
+theorem upstream_same (cfg : Cfg) (w : World) (t : Nat) (order chain : List Nat) (fuel : Nat)
+    (h : GWF w.g) : Same w (upstream cfg w t order chain fuel).1 := by
+  unfold upstream
+  split
+  · exact .refl w h
+  · rename_i cl hcl
+    split
+    · exact .refl w h
+    · split
+      · exact .refl w h
+      · rename_i hvo
+        have hvo' : validOrder cl order = true := by simpa using hvo
+        split
+        · -- data from another scope: cut, refused, re-connected
+          dsimp only
+          refine ⟨rfl, rfl, rfl, rfl, rfl, rfl, rfl, rfl, rfl, ?_, ?_⟩
+          · exact mem_cut_reconnect w.g _ h
+          · rw [cutRec_fst]; exact (h.disconnectChans _).reconnect _
+        · split
+          · exact .refl w h
+          · rename_i hvc
+            have hvc' : validChain w cl chain = true := by simpa using hvc
+            obtain ⟨_, hcm, _⟩ := validChain_spec w cl chain hvc'
+            have hom := validOrder_mem cl order hvo'
+            have hto : t ∈ order := (hom t).mpr (mem_closure_self w t cl hcl)
+            have hco : ∀ x ∈ chain, x ∈ order := fun x hx => (hom x).mpr ((hcm x).mp hx)
+            obtain ⟨hgwf, hconns⟩ := restore_prepare cfg w.g t order chain h hco hto
+            dsimp only
+            split
+            · -- the target is alone in its closure
+              unfold finish
+              dsimp only
+              split <;>
+                exact ⟨rfl, rfl, rfl, rfl, rfl, rfl, rfl, relabel_unlabel _ _,
+                  by first | rfl | (rename_i p hp; funext x; by_cases hx : x = p <;> simp [updF, hx]),
+                  hconns, hgwf⟩
+            · obtain ⟨l, r, f, au, e, _⟩ := runUpstream_frame cfg
+                { w with g := (prepare cfg w.g t order chain).1, label := relabel w.label order }
+                t (chain.headD t) fuel
+              rw [e]
+              unfold finish
+              dsimp only
+              split
+              · rename_i p hp
+                refine ⟨rfl, rfl, rfl, rfl, rfl, rfl, rfl, relabel_unlabel _ _, ?_, hconns, hgwf⟩
+                simp only [hp]
+                exact updF_updF_self _ _ _
+              · rename_i hp
+                refine ⟨rfl, rfl, rfl, rfl, rfl, rfl, rfl, relabel_unlabel _ _, ?_, hconns, hgwf⟩
+                simp only [hp]
+
+
+theorem runUpstream_log (cfg : Cfg) (w : World) (t a fuel : Nat) (L : List Nat)
+    (hl : Linked w.g (a :: L)) (hf : L.length + 2 ≤ fuel)
+    (hdrv : cfg.parentEmits = false ∨ DriverSilent w t) :
+    (runUpstream cfg w t a fuel).2 ≠ .stuck ∧
+      ∃ pre, pre <+: (a :: L) ∧ (runUpstream cfg w t a fuel).1.log = w.log ++ pre ∧
+        ((runUpstream cfg w t a fuel).2 = .ok → pre = a :: L) := by
+  unfold runUpstream
+  split
+  · exact drive_log cfg w t a fuel L hl hf hdrv
+  · rename_i p hp
+    dsimp only
+    cases hwf : w.isWf p
+    · simp only [Bool.false_and, Bool.false_eq_true, if_false]
+      exact drive_log cfg { w with starting := updF w.starting p [a] } t a fuel L hl hf hdrv
+    · simp only [Bool.true_and, if_true]
+      have key := drive_log cfg
+        { w with starting := updF w.starting p [a], automate := updF w.automate p false } t a fuel L hl hf hdrv
+      split
+      · exact key
+      · exact key
+
+/-- the cases in which nothing is touched at all -/
+theorem upstream_cyclic (cfg : Cfg) (w : World) (t : Nat) (order chain : List Nat) (fuel : Nat)
+    (h : closureOf w t = none) : upstream cfg w t order chain fuel = (w, .cyclic) := by
+  simp [upstream, h]
+
+theorem upstream_exec (cfg : Cfg) (w : World) (t : Nat) (order chain : List Nat) (fuel : Nat)
+    (cl : List Nat) (h : closureOf w t = some cl) (he : cl.any w.hasExec = true) :
+    upstream cfg w t order chain fuel = (w, .execRefused) := by
+  simp [upstream, h, he]
+
+/-- no node is its own parent -/
+def NoSelfParent (w : World) : Prop := ∀ i, w.parent i ≠ some i
+
+/-- (pinned behaviour) nothing hangs on `failed` / `true` / `false` of the members of the closure -/
+def ClosureEmitsOnlyRan (w : World) (t : Nat) : Prop :=
+  ∀ i, Reach w.deps t i → Silent w.g i
+
+theorem closure_spec (w : World) (t : Nat) (cl : List Nat) (h : closureOf w t = some cl) :
+    ∀ x, x ∈ cl ↔ Reach w.deps t x :=
+  fun x => ⟨dfs_sound w.deps _ t cl h x, fun hr => dfs_complete w.deps t x hr _ cl h⟩
+
+/-- one level: what runs is a prefix of the chain without the target, all of it on success -/
+theorem upstream_log (cfg : Cfg) (w : World) (t : Nat) (order chain : List Nat) (fuel : Nat)
+    (h : GWF w.g) (hnsp : NoSelfParent w)
+    (hemit : cfg.cutAllOutputs = true ∨ ClosureEmitsOnlyRan w t)
+    (hdrv : cfg.parentEmits = false ∨ DriverSilent w t)
+    (hfuel : chain.length + 1 ≤ fuel) :
+    (upstream cfg w t order chain fuel).2 ≠ .stuck ∧
+      ∃ pre, pre <+: chain.dropLast ∧ (upstream cfg w t order chain fuel).1.log = w.log ++ pre ∧
+        ((upstream cfg w t order chain fuel).2 = .ok → pre = chain.dropLast) ∧
+        (∀ x ∈ pre, Reach w.deps t x) := by
+  have trivial_case : ∀ (o : Outcome), o ≠ .stuck → o ≠ .ok →
+      (w, o).2 ≠ Outcome.stuck ∧ ∃ pre, pre <+: chain.dropLast ∧ (w, o).1.log = w.log ++ pre ∧
+        ((w, o).2 = .ok → pre = chain.dropLast) ∧ (∀ x ∈ pre, Reach w.deps t x) :=
+    fun o h1 h2 => ⟨h1, [], List.nil_prefix, by simp, fun e => absurd e h2, by simp⟩
+  unfold upstream
+  split
+  · exact trivial_case _ (by simp) (by simp)
+  · rename_i cl hcl
+    split
+    · exact trivial_case _ (by simp) (by simp)
+    · split
+      · exact trivial_case _ (by simp) (by simp)
+      · rename_i hvo
+        have hvo' : validOrder cl order = true := by simpa using hvo
+        split
+        · dsimp only
+          exact ⟨by simp, [], List.nil_prefix, by simp, by simp, by simp⟩
+        · rename_i hscope
+          split
+          · exact trivial_case _ (by simp) (by simp)
+          · rename_i hvc
+            have hvc' : validChain w cl chain = true := by simpa using hvc
+            obtain ⟨hnd, hcm, htopo⟩ := validChain_spec w cl chain hvc'
+            have hom := validOrder_mem cl order hvo'
+            have hreach := closure_spec w t cl hcl
+            obtain ⟨pre0, hchain⟩ := chain_ends_in_target w.deps t chain hnd
+              (fun x => (hcm x).trans (hreach x)) htopo
+            have hdl : chain.dropLast = pre0 := by rw [hchain]; simp
+            rw [hdl]
+            dsimp only
+            split
+            · -- alone
+              rename_i hst
+              have : pre0 = [] := by
+                cases pre0 with
+                | nil => rfl
+                | cons a r =>
+                  exfalso
+                  rw [hchain] at hst hnd
+                  simp only [List.cons_append, List.headD_cons] at hst
+                  subst hst
+                  simp at hnd
+              subst this
+              refine ⟨by simp, [], List.nil_prefix, ?_, fun _ => rfl, by simp⟩
+              unfold finish; dsimp only; split <;> simp
+            · rename_i hst
+              cases pre0 with
+              | nil => rw [hchain] at hst; simp at hst
+              | cons a L =>
+                have hhead : chain.headD t = a := by rw [hchain]; rfl
+                rw [hhead]
+                have hsub : ∀ x ∈ a :: L, x ∈ order := by
+                  intro x hx
+                  exact (hom x).mpr ((hcm x).mp (by rw [hchain]; exact List.mem_append_left _ hx))
+                have hlinked : Linked (prepare cfg w.g t order chain).1 (a :: L) := by
+                  rw [hchain]
+                  apply linked_prepared cfg w.g t order (a :: L) h (by rw [← hchain]; exact hnd) hsub (by simp)
+                  rcases hemit with hc | hc
+                  · exact Or.inl hc
+                  · right
+                    intro i hi
+                    exact hc i ((hreach i).mp ((hcm i).mp (by rw [hchain]; exact List.mem_append_left _ hi)))
+                have hpar : ∀ i ∈ order, w.parent i = w.parent t := by
+                  have : order.all (fun i => decide (w.parent i = w.parent t)) = true := by simpa using hscope
+                  intro i hi
+                  simpa using (List.all_eq_true.mp this) i hi
+                have hdrv' : cfg.parentEmits = false ∨ DriverSilent
+                    { w with g := (prepare cfg w.g t order chain).1, label := relabel w.label order } t := by
+                  rcases hdrv with hd | hd
+                  · exact Or.inl hd
+                  · right
+                    intro p hp
+                    rcases hd p hp with hwf | ⟨h2, hs⟩
+                    · exact Or.inl hwf
+                    · right
+                      have hp_notin : p ∉ chain := by
+                        intro hpc
+                        have : w.parent p = some p := by
+                          rw [hpar p ((hom p).mpr ((hcm p).mp hpc))]; exact hp
+                        exact hnsp p this
+                      have hhd : chain.headD t ≠ t := hst
+                      have key : ∀ k, k = 2 ∨ k = 3 ∨ k = 4 ∨ k = 5 → w.g.conns (ch p k) = [] →
+                          (prepare cfg w.g t order chain).1.conns (ch p k) = [] := by
+                        intro k hk h0
+                        apply List.eq_nil_iff_forall_not_mem.mpr
+                        intro y hy
+                        obtain ⟨⟨hcase, _, _⟩, _, _⟩ := (mem_prepared cfg w.g t order chain h hhd _ y).mp hy
+                        rcases hcase with ⟨hy0, _, _⟩ | ⟨a', b', hab, e⟩
+                        · rw [h0] at hy0; cases hy0
+                        · rcases e with ⟨e1, _⟩ | ⟨e1, _⟩
+                          · unfold ch at e1; omega
+                          · have : p = a' := by unfold ch at e1; omega
+                            subst this
+                            exact hp_notin hab.mem.1
+                      exact ⟨key 2 (by simp) h2, key 3 (by simp) hs.1, key 4 (by simp) hs.2.1,
+                        key 5 (by simp) hs.2.2⟩
+                have hf' : L.length + 2 ≤ fuel := by
+                  rw [hchain] at hfuel; simp at hfuel; omega
+                obtain ⟨hns, pre, hpre, hlog, hok⟩ := runUpstream_log cfg
+                  { w with g := (prepare cfg w.g t order chain).1, label := relabel w.label order }
+                  t a fuel L hlinked hf' hdrv'
+                refine ⟨hns, pre, hpre, ?_, hok, ?_⟩
+                · unfold finish; dsimp only
+                  split <;> exact hlog
+                · intro x hx
+                  exact (hreach x).mp ((hcm x).mp (by
+                    rw [hchain]; exact List.mem_append_left _ (hpre.subset hx)))
+
+
+/-- the branch of `upstream` in which every check has passed -/
+theorem upstream_main (cfg : Cfg) (w : World) (t : Nat) (order chain : List Nat) (fuel : Nat)
+    (cl : List Nat) (hcl : closureOf w t = some cl) (he : cl.any w.hasExec = false)
+    (hvo : validOrder cl order = true)
+    (hsc : (order.all fun i => decide (w.parent i = w.parent t)) = true)
+    (hvc : validChain w cl chain = true) :
+    upstream cfg w t order chain fuel =
+      (finish w
+        (if chain.headD t = t then
+            (({ w with g := (prepare cfg w.g t order chain).1, label := relabel w.label order } : World),
+              Outcome.ok)
+          else runUpstream cfg
+            { w with g := (prepare cfg w.g t order chain).1, label := relabel w.label order }
+            t (chain.headD t) fuel).1 t order (prepare cfg w.g t order chain).2,
+       (if chain.headD t = t then
+            (({ w with g := (prepare cfg w.g t order chain).1, label := relabel w.label order } : World),
+              Outcome.ok)
+          else runUpstream cfg
+            { w with g := (prepare cfg w.g t order chain).1, label := relabel w.label order }
+            t (chain.headD t) fuel).2) := by
+  unfold upstream
+  simp only [hcl, he, hvo, hsc, hvc, Bool.not_true, Bool.false_eq_true, if_false]
+
+/-- `automate_execution` is put back whenever the repaired variant is used or no exception came out -/
+theorem upstream_automate (cfg : Cfg) (w : World) (t : Nat) (order chain : List Nat) (fuel : Nat)
+    (hor : cfg.automateInFinally = true ∨ (upstream cfg w t order chain fuel).2 = .ok) :
+    (upstream cfg w t order chain fuel).1.automate = w.automate := by
+  cases hcl : closureOf w t with
+  | none => simp [upstream, hcl]
+  | some cl =>
+    cases he : cl.any w.hasExec with
+    | true => simp [upstream, hcl, he]
+    | false =>
+      cases hvo : validOrder cl order with
+      | false => simp [upstream, hcl, he, hvo]
+      | true =>
+        cases hsc : (order.all fun i => decide (w.parent i = w.parent t)) with
+        | false => simp [upstream, hcl, he, hvo, hsc]
+        | true =>
+          cases hvc : validChain w cl chain with
+          | false => simp [upstream, hcl, he, hvo, hsc, hvc]
+          | true =>
+            rw [upstream_main cfg w t order chain fuel cl hcl he hvo hsc hvc] at hor ⊢
+            dsimp only at hor ⊢
+            split
+            · unfold finish; dsimp only; split <;> rfl
+            · rename_i hst
+              simp only [hst, if_false] at hor
+              obtain ⟨l, r, f, au, e, hau⟩ := runUpstream_frame cfg
+                { w with g := (prepare cfg w.g t order chain).1, label := relabel w.label order }
+                t (chain.headD t) fuel
+              have := hau hor
+              rw [e]
+              unfold finish; dsimp only
+              split <;> exact this
+
+/-- a level that came back without an exception had passed every check -/
+theorem upstream_ok_valid (cfg : Cfg) (w : World) (t : Nat) (order chain : List Nat) (fuel : Nat)
+    (hok : (upstream cfg w t order chain fuel).2 = .ok) :
+    ∃ cl, closureOf w t = some cl ∧ cl.any w.hasExec = false ∧ validOrder cl order = true ∧
+      validChain w cl chain = true := by
+  unfold upstream at hok
+  split at hok
+  · cases hok
+  · rename_i cl hcl
+    split at hok
+    · cases hok
+    · rename_i he
+      split at hok
+      · cases hok
+      · rename_i hvo
+        split at hok
+        · cases hok
+        · split at hok
+          · cases hok
+          · rename_i hvc
+            exact ⟨cl, hcl, by simpa using he, by simpa using hvo, by simpa using hvc⟩
+
+theorem Silent.of_same {w w' : World} (hs : Same w w') {i : Nat} (h : Silent w.g i) : Silent w'.g i := by
+  have key : ∀ c, w.g.conns c = [] → w'.g.conns c = [] := by
+    intro c hc
+    apply List.eq_nil_iff_forall_not_mem.mpr
+    intro y hy
+    have := (hs.conns c y).mp hy
+    rw [hc] at this; cases this
+  exact ⟨key _ h.1, key _ h.2.1, key _ h.2.2⟩
+
+/-- what a level needs for exactness; trivially true of the repaired variant -/
+def LevelHyp (cfg : Cfg) (w : World) (a : Nat) : Prop :=
+  (cfg.cutAllOutputs = true ∨ ClosureEmitsOnlyRan w a) ∧ (cfg.parentEmits = false ∨ DriverSilent w a)
+
+theorem LevelHyp.of_same {cfg : Cfg} {w w' : World} {a : Nat} (hs : Same w w') (h : LevelHyp cfg w a) :
+    LevelHyp cfg w' a := by
+  refine ⟨?_, ?_⟩
+  · rcases h.1 with h1 | h1
+    · exact Or.inl h1
+    · right
+      intro i hi
+      rw [hs.deps] at hi
+      exact (h1 i hi).of_same hs
+  · rcases h.2 with h2 | h2
+    · exact Or.inl h2
+    · right
+      intro p hp
+      rw [hs.parent] at hp
+      rcases h2 p hp with h3 | ⟨h3, h4⟩
+      · left; rw [hs.isWf]; exact h3
+      · right
+        refine ⟨?_, h4.of_same hs⟩
+        apply List.eq_nil_iff_forall_not_mem.mpr
+        intro y hy
+        have := (hs.conns _ y).mp hy
+        rw [h3] at this; cases this
+
+theorem NoSelfParent.of_same {w w' : World} (hs : Same w w') (h : NoSelfParent w) : NoSelfParent w' := by
+  intro i; rw [hs.parent]; exact h i
+
+/-- the expected executions of the levels: every level's chain without its own target -/
+def levelsLog (obs : Nat → List Nat × List Nat) (levels : List Nat) : List Nat :=
+  levels.flatMap (fun a => (obs a).2.dropLast)
+
+theorem upstreamLevels_spec (cfg : Cfg) (obs : Nat → List Nat × List Nat) (fuel : Nat) :
+    ∀ (levels : List Nat) (w : World), GWF w.g → NoSelfParent w →
+      (∀ a ∈ levels, LevelHyp cfg w a) → (∀ a ∈ levels, (obs a).2.length + 1 ≤ fuel) →
+      (upstreamLevels cfg obs fuel w levels).2 ≠ .stuck ∧
+      ∃ pre, pre <+: levelsLog obs levels ∧
+        (upstreamLevels cfg obs fuel w levels).1.log = w.log ++ pre ∧
+        ((upstreamLevels cfg obs fuel w levels).2 = .ok → pre = levelsLog obs levels) ∧
+        (∀ x ∈ pre, ∃ a ∈ levels, Reach w.deps a x) := by
+  intro levels
+  induction levels with
+  | nil =>
+    intro w _ _ _ _
+    exact ⟨by simp [upstreamLevels], [], by simp [levelsLog], by simp [upstreamLevels],
+      fun _ => by simp [levelsLog], by simp⟩
+  | cons a rest ih =>
+    intro w hg hn hh hf
+    have hlev := hh a List.mem_cons_self
+    obtain ⟨hns, pre1, hp1, hlog1, hok1, hmem1⟩ := upstream_log cfg w a (obs a).1 (obs a).2 fuel hg hn
+      hlev.1 hlev.2 (hf a List.mem_cons_self)
+    have hsame := upstream_same cfg w a (obs a).1 (obs a).2 fuel hg
+    have hll : levelsLog obs (a :: rest) = (obs a).2.dropLast ++ levelsLog obs rest := by
+      simp [levelsLog]
+    rw [hll]
+    simp only [upstreamLevels]
+    cases hr : upstream cfg w a (obs a).1 (obs a).2 fuel with
+    | mk w' o =>
+      rw [hr] at hns hlog1 hok1 hsame
+      have hmem1' : ∀ x ∈ pre1, ∃ b ∈ a :: rest, Reach w.deps b x :=
+        fun x hx => ⟨a, List.mem_cons_self, hmem1 x hx⟩
+      have bad : o ≠ .ok → (w', o).2 ≠ Outcome.stuck ∧ ∃ pre, pre <+: (obs a).2.dropLast ++ levelsLog obs rest ∧
+          (w', o).1.log = w.log ++ pre ∧ ((w', o).2 = .ok → pre = (obs a).2.dropLast ++ levelsLog obs rest) ∧
+          (∀ x ∈ pre, ∃ b ∈ a :: rest, Reach w.deps b x) :=
+        fun hne => ⟨hns, pre1, hp1.trans (List.prefix_append _ _), hlog1, fun e => absurd e hne, hmem1'⟩
+      cases o with
+      | ok =>
+        dsimp only
+        have e1 := hok1 rfl
+        obtain ⟨hns2, pre2, hp2, hlog2, hok2, hmem2⟩ := ih w' hsame.gwf (hn.of_same hsame)
+          (fun b hb => (hh b (List.mem_cons_of_mem _ hb)).of_same hsame)
+          (fun b hb => hf b (List.mem_cons_of_mem _ hb))
+        refine ⟨hns2, pre1 ++ pre2, ?_, ?_, ?_, ?_⟩
+        · rw [e1]; exact (List.prefix_append_right_inj _).mpr hp2
+        · rw [hlog2]; dsimp only at hlog1; rw [hlog1]; simp
+        · intro hok; rw [hok2 hok, e1]
+        · intro x hx
+          rcases List.mem_append.mp hx with hx | hx
+          · exact hmem1' x hx
+          · obtain ⟨b, hb, hr⟩ := hmem2 x hx
+            rw [hsame.deps] at hr
+            exact ⟨b, List.mem_cons_of_mem _ hb, hr⟩
+      | cyclic => exact bad (by simp)
+      | execRefused => exact bad (by simp)
+      | mixedScope => exact bad (by simp)
+      | failed => exact bad (by simp)
+      | stuck => exact bad (by simp)
+      | badObs => exact bad (by simp)
+
+theorem upstreamLevels_same (cfg : Cfg) (obs : Nat → List Nat × List Nat) (fuel : Nat) :
+    ∀ (levels : List Nat) (w : World), GWF w.g → Same w (upstreamLevels cfg obs fuel w levels).1 := by
+  intro levels
+  induction levels with
+  | nil => intro w hg; exact .refl w hg
+  | cons a rest ih =>
+    intro w hg
+    have hsame := upstream_same cfg w a (obs a).1 (obs a).2 fuel hg
+    simp only [upstreamLevels]
+    cases hr : upstream cfg w a (obs a).1 (obs a).2 fuel with
+    | mk w' o =>
+      rw [hr] at hsame
+      cases o <;> first | exact hsame | exact hsame.trans (ih w' hsame.gwf)
+
+theorem upstreamLevels_automate (cfg : Cfg) (obs : Nat → List Nat × List Nat) (fuel : Nat) :
+    ∀ (levels : List Nat) (w : World),
+      (cfg.automateInFinally = true ∨ (upstreamLevels cfg obs fuel w levels).2 = .ok) →
+      (upstreamLevels cfg obs fuel w levels).1.automate = w.automate := by
+  intro levels
+  induction levels with
+  | nil => intro w _; rfl
+  | cons a rest ih =>
+    intro w hor
+    simp only [upstreamLevels] at hor ⊢
+    have hau := upstream_automate cfg w a (obs a).1 (obs a).2 fuel
+    cases hr : upstream cfg w a (obs a).1 (obs a).2 fuel with
+    | mk w' o =>
+      rw [hr] at hau hor
+      cases o with
+      | ok =>
+        dsimp only at hor ⊢
+        rw [ih w' hor]; exact hau (Or.inr rfl)
+      | cyclic | execRefused | mixedScope | failed | stuck | badObs =>
+        dsimp only at hor ⊢
+        rcases hor with h1 | h1
+        · exact hau (Or.inl h1)
+        · cases h1
+
+
+/-! ## the whole pull -/
+
+theorem runTarget_same (w : World) (t : Nat) (h : GWF w.g) : Same w (runTarget w t).1 := by
+  unfold runTarget
+  split
+  · exact .refl w h
+  · split <;> exact ⟨rfl, rfl, rfl, rfl, rfl, rfl, rfl, rfl, rfl, fun _ _ => Iff.rfl, h⟩
+
+theorem runTarget_automate (w : World) (t : Nat) : (runTarget w t).1.automate = w.automate := by
+  unfold runTarget; split
+  · rfl
+  · split <;> rfl
+
+theorem runTarget_log (w : World) (t : Nat) :
+    (runTarget w t).2 ≠ .stuck ∧ ∃ pre, pre <+: [t] ∧ (runTarget w t).1.log = w.log ++ pre ∧
+      ((runTarget w t).2 = .ok → pre = [t]) := by
+  unfold runTarget
+  split
+  · exact ⟨by simp, [], by simp, by simp, by simp⟩
+  · split
+    · exact ⟨by simp, [t], by simp, rfl, by simp⟩
+    · exact ⟨by simp, [t], by simp, rfl, by simp⟩
+
+/-- the levels a pull works through -/
+def pullLevels (w : World) (t : Nat) (parents : Bool) : List Nat :=
+  if parents then ancestors w (w.n + 1) t else [t]
+
+theorem pull_eq (cfg : Cfg) (w : World) (t : Nat) (parents : Bool) (obs : Nat → List Nat × List Nat)
+    (fuel : Nat) :
+    pull cfg w t parents obs fuel =
+      match upstreamLevels cfg obs fuel w (pullLevels w t parents) with
+      | (w', .ok) => runTarget w' t
+      | r => r := rfl
+
+theorem pull_same (cfg : Cfg) (w : World) (t : Nat) (parents : Bool) (obs : Nat → List Nat × List Nat)
+    (fuel : Nat) (h : GWF w.g) : Same w (pull cfg w t parents obs fuel).1 := by
+  rw [pull_eq]
+  have hs := upstreamLevels_same cfg obs fuel (pullLevels w t parents) w h
+  cases hr : upstreamLevels cfg obs fuel w (pullLevels w t parents) with
+  | mk w' o =>
+    rw [hr] at hs
+    cases o <;> first | exact hs | exact hs.trans (runTarget_same w' t hs.gwf)
+
+theorem pull_automate (cfg : Cfg) (w : World) (t : Nat) (parents : Bool)
+    (obs : Nat → List Nat × List Nat) (fuel : Nat)
+    (hor : cfg.automateInFinally = true ∨ (pull cfg w t parents obs fuel).2 = .ok) :
+    (pull cfg w t parents obs fuel).1.automate = w.automate := by
+  rw [pull_eq] at hor ⊢
+  have ha := upstreamLevels_automate cfg obs fuel (pullLevels w t parents) w
+  cases hr : upstreamLevels cfg obs fuel w (pullLevels w t parents) with
+  | mk w' o =>
+    rw [hr] at ha hor
+    cases o with
+    | ok =>
+      dsimp only at hor ⊢
+      rw [runTarget_automate]; exact ha (Or.inr rfl)
+    | cyclic | execRefused | mixedScope | failed | stuck | badObs =>
+      dsimp only at hor ⊢
+      rcases hor with h1 | h1
+      · exact ha (Or.inl h1)
+      · cases h1
+
+theorem pull_log (cfg : Cfg) (w : World) (t : Nat) (parents : Bool) (obs : Nat → List Nat × List Nat)
+    (fuel : Nat) (hg : GWF w.g) (hn : NoSelfParent w)
+    (hh : ∀ a ∈ pullLevels w t parents, LevelHyp cfg w a)
+    (hf : ∀ a ∈ pullLevels w t parents, (obs a).2.length + 1 ≤ fuel) :
+    (pull cfg w t parents obs fuel).2 ≠ .stuck ∧
+      ∃ pre, pre <+: levelsLog obs (pullLevels w t parents) ++ [t] ∧
+        (pull cfg w t parents obs fuel).1.log = w.log ++ pre ∧
+        ((pull cfg w t parents obs fuel).2 = .ok → pre = levelsLog obs (pullLevels w t parents) ++ [t]) ∧
+        (∀ x ∈ pre, x = t ∨ ∃ a ∈ pullLevels w t parents, Reach w.deps a x) := by
+  rw [pull_eq]
+  obtain ⟨hns, pre1, hp1, hlog1, hok1, hmem1⟩ :=
+    upstreamLevels_spec cfg obs fuel (pullLevels w t parents) w hg hn hh hf
+  cases hr : upstreamLevels cfg obs fuel w (pullLevels w t parents) with
+  | mk w' o =>
+    rw [hr] at hns hlog1 hok1
+    have bad : o ≠ .ok → (w', o).2 ≠ Outcome.stuck ∧
+        ∃ pre, pre <+: levelsLog obs (pullLevels w t parents) ++ [t] ∧
+          (w', o).1.log = w.log ++ pre ∧
+          ((w', o).2 = .ok → pre = levelsLog obs (pullLevels w t parents) ++ [t]) ∧
+          (∀ x ∈ pre, x = t ∨ ∃ a ∈ pullLevels w t parents, Reach w.deps a x) :=
+      fun hne => ⟨hns, pre1, hp1.trans (List.prefix_append _ _), hlog1, fun e => absurd e hne,
+        fun x hx => Or.inr (hmem1 x hx)⟩
+    cases o with
+    | ok =>
+      dsimp only
+      obtain ⟨h1, pre2, hp2, hlog2, hok2⟩ := runTarget_log w' t
+      have e1 := hok1 rfl
+      refine ⟨h1, pre1 ++ pre2, ?_, ?_, ?_, ?_⟩
+      · rw [e1]; exact (List.prefix_append_right_inj _).mpr hp2
+      · rw [hlog2]; dsimp only at hlog1; rw [hlog1]; simp
+      · intro hok; rw [hok2 hok, e1]
+      · intro x hx
+        rcases List.mem_append.mp hx with hx | hx
+        · exact Or.inr (hmem1 x hx)
+        · left; simpa using hp2.subset hx
+    | cyclic => exact bad (by simp)
+    | execRefused => exact bad (by simp)
+    | mixedScope => exact bad (by simp)
+    | failed => exact bad (by simp)
+    | stuck => exact bad (by simp)
+    | badObs => exact bad (by simp)
+
 end PwVerif.Pull
